@@ -5,6 +5,7 @@ import (
 	"fmt"
 	"os"
 	"path/filepath"
+	"sort"
 	"strings"
 	"testing"
 	"time"
@@ -25,6 +26,51 @@ type c10State struct {
 	others2  map[string]int64
 	otherCfg *AsyncCfg // current async settings of the second collection (nil: synchronous)
 	st       *Stats
+	// age rule: virtual clock and, per lagging object, since when (and with which value) it lags
+	nowMs    int
+	lagSince map[string]int
+	lagVal   map[string]string
+}
+
+// noteLag refreshes the ages of the lagging objects of the first collection.
+func (s *c10State) noteLag() {
+	e := s.e
+	if s.lagSince == nil {
+		s.lagSince, s.lagVal = map[string]int{}, map[string]string{}
+	}
+	w := WalkDir(e.collDir())
+	seen := map[string]bool{}
+	for id, d := range e.m.objs {
+		f, ok := w.Objects[id]
+		if ok && f.Err == "" && string(f.Body) == canon(d) {
+			continue
+		}
+		seen[id] = true
+		if v, had := s.lagVal[id]; !had || v != canon(d) {
+			s.lagSince[id], s.lagVal[id] = s.nowMs, canon(d)
+		}
+	}
+	for id := range s.lagSince {
+		if !seen[id] {
+			delete(s.lagSince, id)
+			delete(s.lagVal, id)
+		}
+	}
+}
+
+// overdue: objects whose last accepted value has been waiting longer than the timeout plus two
+// poll steps of virtual time - whether or not other calls were made in the meantime.
+func (s *c10State) overdue() []string {
+	_, to := s.thresholds()
+	s.noteLag()
+	var out []string
+	for id, since := range s.lagSince {
+		if s.nowMs-since >= to+200 {
+			out = append(out, fmt.Sprintf("%s (accepted %d ms ago)", s.e.tag(id), s.nowMs-since))
+		}
+	}
+	sort.Strings(out)
+	return out
 }
 
 type Other2 struct {
@@ -141,6 +187,19 @@ func (s *c10State) afterTick(where string) {
 	if s.otherCfg != nil && s.quietMs < s.otherCfg.TimeoutMs+200 {
 		others = nil // not due yet under its own (possibly longer) timeout
 	}
+	if od := s.overdue(); len(od) > 0 {
+		for i := 0; i < 100 && len(od) > 0; i++ {
+			vshim.WaitParked(guardReal)
+			time.Sleep(20 * time.Millisecond)
+			od = s.overdue()
+		}
+		if len(od) > 0 {
+			e.failf("%s: the timeout is %d ms, but these accepted writes are still not on disk (other calls were made in the meantime, which must not postpone them): %v", where, to, od)
+		}
+	}
+	if len(s.lagSince) > 0 && s.quietMs < to+200 {
+		e.flag("age-rule-checked-while-calls-continue")
+	}
 	if s.quietMs >= to+200 {
 		if len(docs) > 0 || len(others) > 0 {
 			e.failf("%s: %d ms of virtual time passed without calls (timeout %d ms) but %d+%d accepted objects are not on disk with their last value: %v", where, s.quietMs, to, len(docs), len(others), docs)
@@ -209,7 +268,7 @@ func c10Profile() *Profile {
 	return &Profile{
 		Property: "C10", MaxOps: pick(14, 30),
 		W: map[string]int{"insert": 8, "update": 6, "delete": 3, "many": 2, "resurrect": 1, "query": 2,
-			"tick": 10, "flushAll": 1, "flushAllCommit": 1, "flushOne": 1, "reopen": 2, "coldUpdate": 2, "otherInsert": 3, "other2Insert": 3, "otherSwitch": 2, "deleteAll": 1, "searchDelete": 1},
+			"tick": 10, "flushAll": 1, "flushAllCommit": 1, "flushOne": 1, "reopen": 2, "coldUpdate": 2, "crashRepair": 1, "otherInsert": 3, "other2Insert": 3, "otherSwitch": 2, "deleteAll": 1, "searchDelete": 1},
 		AllowCache: true, AllowCompress: true, ForceAsync: true, AllowLower: true,
 		MinIndexed: 0, MaxIndexed: 3, MaxUnique: 1, CasePaths: 0,
 		TinyBias: 60, BigBias: 8, HookBias: 5, RichShape: 5, MaxLeaves: 1,
@@ -221,7 +280,7 @@ func TestC10(t *testing.T) {
 		t.Skip("needs the instrumented build")
 	}
 	st := statsFor("C10")
-	st.Rule = "async configurations (threshold 1-8, timeout 100 ms-2 s), two collections on one handle; ops: writes, deletes of pending and of flushed objects, batches, reads, ticks of virtual time (100 ms-1.2 s; time.Sleep of the working-tree copy is owned by the harness, the flusher is stepped deterministically), FlushAll, FlushAllAndCommit, Flush of one object, Close+reopen (so also the one-call-after-reopen shape). Oracle: after every op every read path of the live handle equals the model (visibility at once); after a tick, with q = virtual time since the last call: no file exists for an object that is not stored (deleted while pending); if q >= 2 poll steps fewer than threshold objects per collection lag behind on disk (independent walker compares file bodies with the model); if q >= timeout + 2 steps none lags; FlushAll returns with every file on disk, FlushAllAndCommit and Close additionally leave a directory that matches the model (walker incl. schema.json) and that a second handle loads without corruption and reads identically (Close: both collections). Nothing is asserted about flushes happening earlier than a deadline. A third collection is created from the SAME sod.Schema value as the second one and the second one is re-created with other or no async settings at generated points: the third collection must keep its own settings (visibility, threshold and timeout deadlines). The one-call-after-reopen shape (Close, Open, exactly one update, then only time passes) is a dedicated op. TestC10Readers adds the concurrent half: 2-8 reader goroutines (All, unindexed Search, Count, AssignIndex) never leave the handle idle on a 20x scaled clock while threshold- or timeout-many writes are pending; they must reach the disk within 6 s real time (120 s of database time). Non-trivial: a deadline is reached while >= 1 write was lagging at the previous observation, or a pending object is deleted and a flush follows. Distinct by program hash."
+	st.Rule = "async configurations (threshold 1-8, timeout 100 ms-2 s), two collections on one handle; ops: writes, deletes of pending and of flushed objects, batches, reads, ticks of virtual time (100 ms-1.2 s; time.Sleep of the working-tree copy is owned by the harness, the flusher is stepped deterministically), FlushAll, FlushAllAndCommit, Flush of one object, Close+reopen (so also the one-call-after-reopen shape). Oracle: after every op every read path of the live handle equals the model (visibility at once); after a tick, with q = virtual time since the last call: no file exists for an object that is not stored (deleted while pending); if q >= 2 poll steps fewer than threshold objects per collection lag behind on disk (independent walker compares file bodies with the model); if q >= timeout + 2 steps none lags; independently of q, no accepted value of the first collection waits longer than timeout + 2 steps of virtual time, even when other calls keep arriving (age rule); a restart on a directory that lost an object file (corruption reported, Repair) is an op, after which the same deadlines apply; FlushAll returns with every file on disk, FlushAllAndCommit and Close additionally leave a directory that matches the model (walker incl. schema.json) and that a second handle loads without corruption and reads identically (Close: both collections). Nothing is asserted about flushes happening earlier than a deadline. A third collection is created from the SAME sod.Schema value as the second one and the second one is re-created with other or no async settings at generated points: the third collection must keep its own settings (visibility, threshold and timeout deadlines). The one-call-after-reopen shape (Close, Open, exactly one update, then only time passes) is a dedicated op. TestC10Readers adds the concurrent half: 2-8 reader goroutines (All, unindexed Search, Count, AssignIndex) never leave the handle idle on a 20x scaled clock while threshold- or timeout-many writes are pending; they must reach the disk within 6 s real time (120 s of database time). Non-trivial: a deadline is reached while >= 1 write was lagging at the previous observation, or a pending object is deleted and a flush follows. Distinct by program hash."
 	st.Assumptions = append(baseAssumptions(), "the flusher measures time only through time.Sleep/After/Ticker (redirected to the virtual clock)", "threshold >= 1 and timeout >= one poll step")
 	prof := c10Profile()
 	rapid.Check(t, func(rt *rapid.T) {
@@ -266,6 +325,7 @@ func caseC10(t TB, prog *Program) {
 					e.flag("flusher-not-parked-within-guard")
 				}
 				s.quietMs += op.Ms
+				s.nowMs += op.Ms
 				s.afterTick(fmt.Sprintf("%s, %d ms after the last call", where, s.quietMs))
 				if lagBefore > 0 {
 					if d, o, _ := s.lagging(); len(d)+len(o) == 0 {
@@ -315,10 +375,40 @@ func caseC10(t TB, prog *Program) {
 				e.upsert(where, d, id)
 				vshim.WaitParked(guardReal)
 				_, to := s.thresholds()
+				s.noteLag()
 				tick(to + 300)
 				s.quietMs = to + 300
+				s.nowMs += to + 300
 				e.flag("one-call-after-reopen")
 				s.afterTick(fmt.Sprintf("%s: reopen, one update, then %d ms without any call", where, s.quietMs))
+			case "crashRepair":
+				// the process is restarted on a directory that lost one object file: the first
+				// load reports corruption, Repair fixes it - and async writes must work as before
+				id, ok := e.liveRef(op.Ref)
+				if !ok {
+					break
+				}
+				if err := e.db.Close(); err != nil {
+					e.failf("%s: Close: %v", where, err)
+				}
+				vshim.WaitParked(guardReal)
+				w := WalkDir(e.collDir())
+				f, ok := w.Objects[id]
+				if !ok {
+					e.failf("%s: Close returned but %s has no file", where, e.tag(id))
+				}
+				os.Remove(filepath.Join(e.collDir(), f.Name))
+				e.db = sod.Open(e.root)
+				if _, err := e.db.Count(&Doc{}); !sod.IsIndexCorrupted(err) {
+					e.failf("%s: an object file was removed while the database was closed; the first load returned %v, want ErrIndexCorrupted", where, err)
+				}
+				if err := e.db.Repair(&Doc{}); err != nil {
+					e.failf("%s: Repair: %v", where, err)
+				}
+				e.trackDelete(id)
+				e.m.Delete(id)
+				e.flag("restart-with-corruption-then-repair")
+				vshim.WaitParked(guardReal)
 			case "other2Insert":
 				o := &Other2{K: int64(len(s.others2) + 1), V: "v"}
 				if err := e.db.InsertOrUpdate(o); err != nil {
@@ -368,6 +458,7 @@ func caseC10(t TB, prog *Program) {
 			}
 			s.quietMs = 0
 			vshim.WaitParked(guardReal)
+			s.noteLag()
 			// integrity is only comparable when nothing lags behind on disk
 			dl, ol, _ := s.lagging()
 			e.dirty = len(dl)+len(ol)+len(s.lagging2()) > 0
